@@ -141,7 +141,10 @@ class Sys:
             elif kind == 'add_hook':
                 self.n += 1
                 kid = 'k%d' % self.n
-                app.on_route(op[1], make_hook(kid, self.log))
+                if self.n % 2:
+                    app.on_route(op[1], make_hook(kid, self.log))
+                else:
+                    app.on_route(op[1])(make_hook(kid, self.log))       # decorator form
             elif kind == 'add_404':
                 self.n += 1
                 kid = 'p%d' % self.n
